@@ -80,6 +80,29 @@ add("C07",
     "additive, bounded by the width, and obeys the y-/x-complement and axis-swap relations.",
     "Reference models use fractions.Fraction (no rounding of their own); tolerance 1e-12 / 1e-9.")
 
+add("C08",
+    "property-based testing: metamorphic relations between pairs of executions (class swap, "
+    "negation with flipped score_class, exact and general increasing affine maps) on "
+    "Hypothesis-generated score sets",
+    "Exploration: swap() reverses every confusion matrix and exchanges the complementary rates "
+    "exactly; negated objects give identical matrices at -t and negated linear thresholds; affine "
+    "maps map all returned thresholds (3 methods) and leave matrices, AUC and (tie-free) EER "
+    "unchanged. Exact maps (power-of-two scale, integer shift, dyadic scores) are compared "
+    "bit-exactly.",
+    "General maps are compared only at thresholds >1e-9*scale away from a score and only when the "
+    "map does not merge distinct scores through rounding; negation equivariance of thresholds for "
+    "method=linear only, EER for tie-free inputs only (as the property states).")
+
+add("C09",
+    "property-based testing: differential between a Scores object with virtual easy samples and "
+    "its twin with the same samples materialised as extreme scores",
+    "Exploration: confusion matrices at every threshold inside the materialised range (scores, "
+    "+-1ulp, midpoints), full and partial AUC, and thresholds for every target on the whole grid "
+    "j/T (6 metrics) are compared between the two objects for generated score sets and easy "
+    "counts, in all 4 configs.",
+    "Thresholds compared only for targets whose materialised threshold lies within the range of "
+    "the relevant scored samples (as the property states); tolerance 1e-9*range, 1e-12 for AUC.")
+
 NOT_YET = {}
 
 
